@@ -449,8 +449,8 @@ func (ef *Filter) filterField(ctx context.Context, v reflect.Value, filterOverri
 				// okay, we've dealt with the "Taggable" things, let's check for other
 				// fields that need to be filtered, but be sure to ignore taggable
 				// on the next recursion or will be in an infinite loop
-				opt = append(opt, withIgnoreTaggable())
-				if err := ef.filterField(ctx, field, filterOverrides, tm, opt...); err != nil {
+				fieldOpt := append(append([]Option{}, opt...), withIgnoreTaggable())
+				if err := ef.filterField(ctx, field, filterOverrides, tm, fieldOpt...); err != nil {
 					return fmt.Errorf("%s: %w", op, err)
 				}
 			}
